@@ -65,10 +65,8 @@ def preCB (h : Hashing) (i : SyncIn) : Bool :=
   specOk i &&
   i.pods.all (fun c => c.owner != .other && c.member && c.selMatch && c.name == canonicalName i.setName c.pod.ord &&
     decide (0 ≤ c.pod.ord) && c.pod.stOk && c.pod.created) &&
-  i.pods.all (fun c => decide (c.pod.ord < maxInt32)) &&
   distinctOrdsC i.pods &&
   decide (i.pods.length ≤ freshId) && decide ((replicasOf i.view).toNat ≤ freshId) &&
-  decide (replicasOf i.view + i.view.slots.length ≤ maxInt32) &&
   decide ((i.store.map (·.name)).Nodup) && noColon i.setName && hashOkB h i && labelsOkB h i
 
 /-- the class of the general convergence theorem: `preCB`, a partition `≥ 0` / OnDelete / the legacy boundary mode, room in
@@ -77,14 +75,13 @@ def preNB (h : Hashing) (i : SyncIn) : Bool :=
   preCB h i && (partB i.view || legacyB i.view) && roomB i && (i.view.parallel || noFsOutB i)
 
 /-- what `preNB` asks beyond `wfWorld`: `spec.replicas` is set; every pod object is a member of the set (named after it)
-    whose storage matches and whose ordinal is below MaxInt32, one per ordinal; sizes within the model's id scheme; stored
+    whose storage matches, one per ordinal; sizes within the model's id scheme; stored
     revisions have distinct names; no colon in the set's name; the hashing premises -/
 def extraB (h : Hashing) (i : SyncIn) : Bool :=
   i.view.replicas.isSome &&
-  i.pods.all (fun c => c.member && c.pod.stOk && decide (c.pod.ord < maxInt32)) &&
+  i.pods.all (fun c => c.member && c.pod.stOk) &&
   distinctOrdsC i.pods &&
   decide (i.pods.length ≤ freshId) && decide ((replicasOf i.view).toNat ≤ freshId) &&
-  decide (replicasOf i.view + i.view.slots.length ≤ maxInt32) &&
   decide ((i.store.map (·.name)).Nodup) && noColon i.setName && hashOkB h i && labelsOkB h i && roomB i
 
 end Asts.C02p
